@@ -212,6 +212,38 @@ async fn proposal(storage: &TempStorage, t: &[&str]) -> String {
     }
 }
 
+/// `pricelen <n>`: a vote extension carrying one price of `n` bytes —
+///   verify   = the sequencer's own admission check (`verify_vote_extension`, used by
+///              VerifyVoteExtension and by every proposal check),
+///   finalize = the price computation FinalizeBlock runs on an extended commit that contains it
+///              (`calculate_prices_from_vote_extensions` -> `OracleVoteExtension::try_from_raw`).
+fn pricelen(n: usize) -> String {
+    let raw = astria_core::generated::price_feed::abci::v2::OracleVoteExtension {
+        prices: [(0u64, bytes::Bytes::from(vec![1u8; n]))].into_iter().collect(),
+    };
+    let encoded = raw.encode_to_vec();
+    let verify = super::verify_vote_extension(encoded.clone().into(), 1).is_ok();
+    let ext = ExtendedCommitInfo {
+        round: 1u16.into(),
+        votes: vec![ExtendedVoteInfo {
+            validator: Validator {
+                address: addr(1),
+                power: 1u32.into(),
+            },
+            sig_info: Flag(BlockIdFlag::Commit),
+            extension_signature: None,
+            vote_extension: encoded.into(),
+        }],
+    };
+    let finalize =
+        astria_core::oracles::price_feed::utils::calculate_prices_from_vote_extensions(&ext, &IndexMap::new()).is_ok();
+    format!(
+        "verify={} finalize={}",
+        if verify { "accept" } else { "reject" },
+        if finalize { "ok" } else { "err" }
+    )
+}
+
 const POWERS: [u64; 8] = [1, 2, 3, 5, 10, 1 << 31, 1 << 62, (1 << 63) - 1];
 
 fn gen_op(rng: &mut Rng) -> String {
@@ -301,6 +333,10 @@ fn gen_ops(rng: &mut Rng, thorough: bool) -> Vec<String> {
             ops.push(format!("proposal 5 1 {} {} {}", keys.join(","), last.join(","), ext.join(",")));
         }
     }
+    // admission vs. use of price bytes, every length around both bounds
+    for n in (0..=40usize).chain([64, 255, 256, 1000]) {
+        ops.push(format!("pricelen {n}"));
+    }
     let n = if thorough { 20_000 } else { 1500 };
     for _ in 0..n {
         ops.push(gen_op(rng));
@@ -326,7 +362,11 @@ fn driver() {
     for op in ops {
         let op = op.strip_prefix("quorum ").unwrap_or(&op).to_string();
         let t: Vec<&str> = op.split(' ').collect();
-        let res = rt.block_on(proposal(&storage, &t[1..]));
+        let res = if t[0] == "pricelen" {
+            no_panic(|| pricelen(t[1].parse().unwrap())).unwrap_or_else(|| "panic".to_string())
+        } else {
+            rt.block_on(proposal(&storage, &t[1..]))
+        };
         trace.line(&format!("quorum {op} => {res}"));
     }
     trace.finish();
